@@ -43,7 +43,7 @@ bool prop(Tape &t, Report &R) {
     p2.legalization.orderingWidth = ows[t.next() % 6];
     for (auto &c : s.cells)
       if (!c.fixed && s.placedH(c) != s.rowHeight) return true;  // outside the property
-    if (s.nbMovable() == 0) return true;
+    if (s.nbMovable() == 0 || !specInDomain(s)) return true;  // literal specs outside the quantified domain are not judged
     {
       // a placement that is legal as given must not move at all
       Circuit c0 = s.build();
